@@ -186,7 +186,7 @@ func c06R2(c *Ctx, id string) {
 			if ok {
 				for _, k := range []int64{1, 2, 7} {
 					ev := &Evaluator{Param: func(p *ssa.Parameter) (V, bool) {
-						if p.Name() == "count" {
+						if isLastParam(p) {
 							return iV(k), true
 						}
 						return unkV, false
